@@ -115,10 +115,21 @@ def twin_diff_summary(work):
 # Kani code generation (one cargo invocation) and per-harness CBMC runs
 # ----------------------------------------------------------------------------------------
 
-def kani_codegen(hdir, features, target, extra=()):
-    t0 = time.time()
+def expand_modules(hdir, prefixes):
+    """module prefixes from props.py -> concrete module names present in the harness crate"""
+    mods = module_names(os.path.join(hdir, "src"))
+    out = []
+    for p in prefixes:
+        hit = [m for m in mods if m == p or re.match(r"^%s_\d\d$" % re.escape(p), m)]
+        if not hit:
+            raise Inconclusive("no module matches " + p)
+        out += hit
+    return out
+
+
+def _codegen_one(hdir, features, target):
     cmd = ["cargo", "kani", "--lib", "--only-codegen", "--no-assertion-reach-checks", "-Z", "stubbing",
-           "--features", ",".join(features), "--target-dir", target] + list(extra)
+           "--features", ",".join(features), "--target-dir", target]
     p = subprocess.run(cmd, cwd=hdir, env=ENV, stdout=subprocess.PIPE, stderr=subprocess.STDOUT, text=True)
     if p.returncode != 0:
         raise Inconclusive("kani code generation failed:\n" + p.stdout[-6000:])
@@ -138,8 +149,22 @@ def kani_codegen(hdir, features, target, extra=()):
             "stubs": [(s["original"], s["replacement"]) for s in h["attributes"].get("stubs", [])],
             "file": h["original_file"], "line": h["original_start_line"],
         })
-    unsupported = meta.get("unsupported_features", [])
-    return hs, time.time() - t0, p.stdout, unsupported
+    return hs
+
+
+def kani_codegen(hdir, features, target, groups=10):
+    """Kani code generation, in parallel: the scenario modules are dealt into up to `groups`
+    cargo invocations, each with its own (persistent, cached) target directory."""
+    t0 = time.time()
+    features = list(features)
+    k = max(1, min(groups, (len(features) + 1) // 2 if len(features) > 3 else 1))
+    buckets = [features[i::k] for i in range(k)]
+    hs = []
+    with concurrent.futures.ThreadPoolExecutor(max_workers=k) as ex:
+        futs = [ex.submit(_codegen_one, hdir, b, "%s-g%02d" % (target, i) if k > 1 else target) for i, b in enumerate(buckets)]
+        for f in futs:
+            hs += f.result()
+    return hs, time.time() - t0, "", []
 
 
 def _limit(mem_gb):
